@@ -88,8 +88,29 @@ def discharge(obs: list[Obligation], timeout_ms: int = 10000, procs: int | None 
     # vacuity canaries only have to be "not proved": a short budget is enough (a contradiction shows up at once)
     tasks = [(i, min(timeout_ms, 2500) if todo[i].kind == "canary" else timeout_ms, want_model and todo[i].kind != "canary") for i in range(len(todo))]
     ctx = mp.get_context("fork")
-    with ctx.Pool(min(procs, len(tasks))) as pool:
-        for idx, res, backend, secs, model in pool.imap_unordered(_solve_one, tasks, chunksize=1):
+    # z3's own timeout is cooperative: a query can sit for hours in one simplex pivot over huge rationals and never look at
+    # it. Hard wall-clock guard: when no result at all has arrived for (3 solver budgets incl. the CLI fall-backs + 60 s), the
+    # workers still busy are stuck; the pool is terminated and what they held stays undecided ("unknown").
+    hard = 3 * (timeout_ms / 1000.0 + 5) + 60
+    pool = ctx.Pool(min(procs, len(tasks)))
+    done = set()
+    try:
+        it = pool.imap_unordered(_solve_one, tasks, chunksize=1)
+        while len(done) < len(tasks):
+            try:
+                idx, res, backend, secs, model = it.next(timeout=hard)
+            except mp.TimeoutError:
+                break
+            except StopIteration:
+                break
             ob = todo[idx]
             ob.result, ob.backend, ob.seconds, ob.model = res, backend, secs, model
+            done.add(idx)
+    finally:
+        pool.terminate()
+        pool.join()
+    for i, ob in enumerate(todo):
+        if i not in done:
+            ob.result, ob.backend, ob.seconds = "unknown", "z3-5.1(py)", hard
+            ob.model = f"(hard wall-clock limit of {hard:.0f} s reached: the solver did not honour its own timeout)"
     _OBS = []
